@@ -1212,23 +1212,73 @@ func storesVisibleToClosure(cell *ssa.Alloc, site *ssa.MakeClosure) []*ssa.Store
 // passing such a store (the value may come from before the call). Aliasing
 // through other pointers and stores made by callees are not modelled.
 func ReachingFieldStores(at ssa.Instruction, typeName, field string) (stores []*ssa.Store, fromBefore bool) {
+	return reachingFieldStores(at, at, typeName, field, 0, true)
+}
+
+// fnStoresField: fn or a same-package function it statically calls (two levels) stores to the field.
+func fnStoresField(fn *ssa.Function, typeName, field string, depth int) bool {
+	found := false
+	EachInstr(fn, func(in ssa.Instruction) {
+		if _, ok := StoreToField(in, typeName, field); ok {
+			found = true
+		}
+		if cl, ok := in.(*ssa.Call); ok && depth < 2 {
+			if sc := cl.Call.StaticCallee(); sc != nil && sc != fn && len(sc.Blocks) > 0 && PkgOf(sc) == PkgOf(fn) && fnStoresField(sc, typeName, field, depth+1) {
+				found = true
+			}
+		}
+	})
+	return found
+}
+
+// reachingFieldStores: query is the instruction the question was asked at (its facts select the feasible returns of the
+// helpers passed on the way back); stores made by same-package helpers called on the way are included, and the walk
+// continues at the only call site of a helper when it reaches the helper's entry.
+func reachingFieldStores(at, query ssa.Instruction, typeName, field string, depth int, up bool) (stores []*ssa.Store, fromBefore bool) {
 	fn := at.Parent()
 	seen := map[*ssa.BasicBlock]bool{}
 	added := map[*ssa.Store]bool{}
+	add := func(sts []*ssa.Store) {
+		for _, st := range sts {
+			if !added[st] {
+				added[st] = true
+				stores = append(stores, st)
+			}
+		}
+	}
 	var scan func(b *ssa.BasicBlock, from int)
 	scan = func(b *ssa.BasicBlock, from int) {
 		for i := from; i >= 0; i-- {
 			if _, ok := StoreToField(b.Instrs[i], typeName, field); ok {
-				st := b.Instrs[i].(*ssa.Store)
-				if !added[st] {
-					added[st] = true
-					stores = append(stores, st)
-				}
+				add([]*ssa.Store{b.Instrs[i].(*ssa.Store)})
 				return
+			}
+			if cl, ok := b.Instrs[i].(*ssa.Call); ok && depth < 3 {
+				if sc := cl.Call.StaticCallee(); sc != nil && sc != fn && len(sc.Blocks) > 0 && PkgOf(sc) == PkgOf(fn) && fnStoresField(sc, typeName, field, 0) {
+					through := false
+					for _, ret := range FeasibleReturns(cl, BoolFactsAt(query)) {
+						sts, fb := reachingFieldStores(ret, ret, typeName, field, depth+1, false)
+						add(sts)
+						if fb {
+							through = true
+						}
+					}
+					if !through {
+						return
+					}
+				}
 			}
 		}
 		if b == fn.Blocks[0] {
-			fromBefore = true
+			if site := SoleCallSite(fn); up && site != nil && depth < 3 && fn.Parent() == nil {
+				sts, fb := reachingFieldStores(site, site, typeName, field, depth+1, true)
+				add(sts)
+				if fb {
+					fromBefore = true
+				}
+			} else {
+				fromBefore = true
+			}
 		}
 		for _, p := range b.Preds {
 			feasible := false
